@@ -79,9 +79,11 @@ class ProgGen(object):
                 finals.append((v, oc))
         else:
             finals.append((None, outcome))
-        # token kind is a property of the template: undefined/conv apply to all rows
-        kinds = set(oc for _, oc in finals)
+        # token kind is a property of the template: undefined/conv/async apply to all rows
         tok_kind = "u" if outcome == "undefined" else ("b" if outcome == "conv" else "k")
+        if tok_kind == "k" and r.random() < o["p_async"] and all(oc in ("pass", "fail", "error", "pending", "skip", "undefined", "conv")
+                                                               for _, oc in finals):
+            tok_kind = "a"
         tok = "%s%d" % (tok_kind, n)
         text = tmpl % tok
         for v, oc in finals:
@@ -93,7 +95,7 @@ class ProgGen(object):
             elif oc in ("undefined", "conv"):
                 oc = "pass"
             self.outcomes[final] = oc
-            self.flavour[final] = "async" if (oc in ("pass", "fail", "error") and r.random() < o["p_async"]) else "sync"
+            self.flavour[final] = "async" if tok_kind == "a" else "sync"
         st = {"kw": kw, "text": text}
         if r.random() < o["p_table"]:
             st["table"] = {"header": ["name", "value"], "rows": [["x", "1"], ["y|z", ""]][: r.randint(0, 2)]}
